@@ -18,6 +18,10 @@ HARNESSES = {
     "mhist0": ("mhist.cpp", ["MHIST_GROUP=0"]),
     "mhist1": ("mhist.cpp", ["MHIST_GROUP=1"]),
     "mhist2": ("mhist.cpp", ["MHIST_GROUP=2"]),
+    "vhist0": ("vhist.cpp", ["VHIST_GROUP=0"]),
+    "vhist1": ("vhist.cpp", ["VHIST_GROUP=1"]),
+    "vhist2": ("vhist.cpp", ["VHIST_GROUP=2"]),
+    "vhist3": ("vhist.cpp", ["VHIST_GROUP=3"]),
 }
 
 
@@ -109,6 +113,22 @@ def c09_jobs(tier):
     tag = scale(tier, "quick", "")
     return [job("mhist0", n, workers=5, tag=tag, plain_pct=15), job("mhist1", n, workers=5, tag=tag, plain_pct=15),
             job("mhist2", n, workers=6, tag=tag, plain_pct=15)]
+
+
+def c10_jobs(tier):
+    n = scale(tier, 30000, 1500000)
+    tag = scale(tier, "quick", "")
+    js = [job("vhist%d" % g, n, workers=3, tag=tag, plain_pct=10, step_cap=60000) for g in (0, 1, 2, 3)]
+    js += [job("vhist%d" % g, scale(tier, 4000, 200000), workers=1, tag=tag, params={"sequential": 1}, step_cap=300000) for g in (0, 1, 2, 3)]
+    return js
+
+
+def c11_jobs(tier):
+    n = scale(tier, 30000, 1500000)
+    tag = scale(tier, "quick", "")
+    js = [job("vhist%d" % g, n, workers=3, tag=tag, plain_pct=10, step_cap=60000) for g in (0, 1, 2, 3)]
+    js += [job("vhist%d" % g, scale(tier, 6000, 300000), workers=1, tag=tag, params={"sequential": 1}, step_cap=300000) for g in (0, 1, 2, 3)]
+    return js
 
 
 NOT_YET = {}
@@ -271,5 +291,40 @@ PROPS = {
                 "completed between two steps of the iterator. Distinct: program + history.",
         "nontrivial_floor": 0.1,
         "assumptions": ["sequentially consistent interleavings"],
+    },
+    "C10": {
+        "jobs": c10_jobs,
+        "level_text": "Sampled exploration of vyukov_hash_map histories (all five key/value storage specialisations, initial capacities 1-4 "
+                      "forcing repeated grows and 128/256 with extension items, colliding keys) decided by an exact linearizability check "
+                      "with accessor contents, plus long single-threaded sequences against the same model.",
+        "level_note": "Trusted: runtime, checker; blocking operations are allowed to wait, deadlock/livelock is reported; SC interleavings here.",
+        "technique": "property-based testing: generated map programs + schedules vs linearizability checker (map spec with value identity), final iteration vs model",
+        "rule": "case = storage specialisation (int->int, int->managed_ptr, string->managed_ptr, int->string, string->int, string->string "
+                "with colliding / constant hash) x reclaimer (and value_reclaimer) x initial capacity {1,2,4,128,256} x 4-8 keys that share "
+                "buckets x program (prefix, 1-3 threads x up to 6 operations from emplace / get_or_emplace / get_or_emplace_lazy / erase / "
+                "extract / try_get_value / find, in a quarter of the cases an iterator session) x generated schedule; plus sequential "
+                "cases. Oracle: linearizability with accessor contents (extract yields the removed value, try_get_value a value of that "
+                "key), string values/keys must be values ever stored (no torn value), final iteration equals the model, every bucket "
+                "unlocked at the end (probe), value lifecycle, quarantine allocator. Non-trivial: a try_get_value overlapped a successful "
+                "erase/extract/erase(iterator), or the map grew in the concurrent part (sequential: >= 12 operations).",
+        "nontrivial_floor": 0.1,
+        "assumptions": ["sequentially consistent interleavings", "at most one iterator alive at any time and no ordinary operation by the thread that holds it (documented rules)"],
+    },
+    "C11": {
+        "jobs": c11_jobs,
+        "level_text": "Sampled exploration of iterator sessions (begin/find, ++, erase(iterator), repeated dereference, moves, early reset) "
+                      "single-threaded against the model and concurrently with lock-free readers and writers.",
+        "level_note": "Trusted: runtime, checker; every yield is a point-in-time lookup (the iterator holds the bucket lock), so an update of "
+                      "a locked bucket taking effect shows up as a non-linearizable history.",
+        "technique": "property-based testing: generated iterator sessions + concurrent readers/writers + schedules vs model traversal, lock probe and linearizability checker",
+        "rule": "case = as C10 with an iterator session in every case (one thread: begin() or find(k), then up to 14 steps from ++ / "
+                "erase(it) / double dereference / move construction+assignment / reset), one pure try_get_value reader and 0-2 writers on "
+                "non-stable keys. Oracle: yields are point-in-time lookups inside the linearizability check, erase(iterator) removes "
+                "exactly the yielded element, no key twice in one session, a complete traversal from begin() yields every stable element, "
+                "moved-from iterators are end(), after the session every bucket is unlocked (emplace+erase / try_get_value probe per key; "
+                "a lost lock is a hang or deadlock verdict), final iteration equals the model. Non-trivial: the session erased at least "
+                "one element through the iterator. Distinct: program + history.",
+        "nontrivial_floor": 0.1,
+        "assumptions": ["sequentially consistent interleavings", "documented iterator rules are generator preconditions"],
     },
 }
